@@ -126,7 +126,7 @@ class run_cell_step:
         return flow == 'next'
 
 
-@contract(IMP + 'run', props=['C02', 'C07', 'C12', 'C19'], name='run_row_step')
+@contract(IMP + 'run', props=['C02', 'C07', 'C12', 'C17', 'C19'], name='run_row_step')
 class run_row_step:
     """The row bookkeeping of Importer.run: one iteration of `for row in reader` for an empty line and for a row of one cell (the cell
     itself: run_cell_step; rows of more cells repeat the cell step, which does not depend on the column count; global comments go
@@ -136,40 +136,58 @@ class run_row_step:
     rule) its stage is appended to the measure index -- exactly once per row -- and the last measure number is the size of the index
     (C07, C19)."""
     step = 'for row in'
-    assumes = (A_STUBS, 'domain: empty rows and rows of one cell (the column loop is unrolled)')
+    assumes = (A_STUBS, 'domain: empty rows, global comment rows and rows of one cell (the column loop is unrolled)')
 
     def inputs(g):
         imp, outcome, token = mk_cell_state(g)
-        empty = g.choice('row', ['empty', 'one cell']) == 'empty'
+        kind = g.choice('row', ['empty', 'one cell', 'global comment'])
+        empty = kind == 'empty'
         column = g.str_sym('column', CELL_CORPUS)
+        if kind == 'global comment':
+            # '!!' + any text + a last character that is not a blank (the row is stripped before it becomes the token text)
+            column = '!!' + g.str_sym('comment.text', ['!COM: Bach', ' a comment']) + g.choice('comment.last', ['h', ':', '.'])
         mst = imp._document.measure_start_tree_stages
         g.assume(len(imp._next_stage_parents) > 0)        # a row after the header row: there are cells above
         return {'self': imp, 'reader': None, 'row': [] if empty else [column], '_above': imp._next_stage_parents[0],
-                '_outcome': outcome, '_column': column, '_empty': empty, '_mst_before': mst.copy(), '_next_before': imp._next_stage_parents,
+                '_outcome': outcome, '_column': column, '_empty': empty, '_comment': kind == 'global comment',
+                '_pre_header_node': imp._last_node_previous_to_header, '_prev_before': imp._prev_stage_parents, '_mst_before': mst.copy(), '_next_before': imp._next_stage_parents,
                 '_stage_before': imp._tree_stage, '_line_before': imp._row_number,
                 '_target': imp._tree.stages[imp._tree_stage + 1] if imp._tree_stage + 1 < len(imp._tree.stages) else None}
 
-    def requires(self, column, outcome, above):
-        return conj(len(column) > 0, not column.startswith('**'), not column.startswith('!!'), not (column in SPINE_OPERATIONS),
+    def requires(self, column, outcome, above, comment):
+        return conj(len(column) > 0, not column.startswith('**'), iff(column.startswith('!!'), comment), not (column in SPINE_OPERATIONS),
+                    self._header_row_number is None,
                     self._tree_stage + 1 <= len(self._tree.stages), self._tree_stage >= 0,
                     above.header_node is not None, outcome != 'unknown-header')
 
-    def modifies_objs(self, target, above):
-        return ([self, self.errors, self._tree.stages, self._document.measure_start_tree_stages, 'Node.NextID', above.children]
-                + ([] if target is None else [target]))
+    def modifies_objs(self, target, above, pre_header_node):
+        return ([self, self.errors, self._tree.stages, self._document.measure_start_tree_stages, 'Node.NextID', above.children,
+                 pre_header_node.children] + ([] if target is None else [target]))
 
     def post_counters(self, empty, stage_before, line_before):
         return conj(self._row_number == line_before + 1, self._tree_stage == (stage_before if empty else stage_before + 1))
 
-    def post_parents_shift(self, empty, next_before, above):
+    def post_global_comment_row(self, comment, column, pre_header_node, next_before, mst_before):
+        # a global comment belongs to no spine: one node, with the verbatim text, chained below the previous global record (or the
+        # root); the cells of the row above stay the parents of the next row; no measure starts
+        if not comment:
+            return True
+        node = self._last_node_previous_to_header
+        return conj(node.parent is pre_header_node, type(node.token).__name__ == 'MetacommentToken', node.token.encoding == column,
+                    node.stage == self._tree_stage, self._prev_stage_parents == next_before, len(self._next_stage_parents) == 0,
+                    self._document.measure_start_tree_stages == mst_before)
+
+    def post_parents_shift(self, empty, next_before, above, comment):
+        if comment:
+            return True
         if empty:
             return self._next_stage_parents is next_before
         return conj(self._prev_stage_parents == next_before, len(self._next_stage_parents) == 1,
                     self._next_stage_parents[0].parent is above, self._next_stage_parents[0].stage == self._tree_stage)
 
-    def post_measure_index(self, empty, mst_before):
+    def post_measure_index(self, empty, mst_before, comment):
         mst = self._document.measure_start_tree_stages
-        if empty:
+        if empty or comment:
             return mst == mst_before
         c = self._next_stage_parents[0].token.category
         starts = disj(c == TokenCategory.BARLINES, conj(disj(c == TokenCategory.CORE, is_desc(TokenCategory.CORE, c)), len(mst_before) == 0))
